@@ -84,7 +84,7 @@ class DiffOperator(operator.Operator, abc.ABC):
 
         def move(coeff):
             if 0 < np.ndim(coeff) <= rank:
-                own = axes if isinstance(axes, int) else tuple(axes)[: np.ndim(coeff)]
+                own = axes if isinstance(axes, int) else tuple(sorted(axes))[: np.ndim(coeff)]
                 return common.set_axes(0, np.asarray(coeff), own)
             return coeff
 
